@@ -76,6 +76,8 @@ def run(chk, tier):
         g = progen.ProgGen(((chk.seed + 3) % 1000003) * 100003 + i, emph=("try",))
         g.feat |= {"try", "fun"}
         g.exns = g.exns or ["Ex0", "Ex1", "Ex2"]
+        if i % 2:       # every second program also has exceptions that carry a value
+            g.enable_payload()
         eprogs.append(g.program("x%d" % i))
     # ... and one dense in element / field stores whose right-hand sides are conditionals or blocks with effects
     for i in range(ne // 2):
